@@ -51,7 +51,16 @@ def _alias_root(e):
     if not ifp:
         return None
     probe = ifp + tuple(c["name"] for c in reversed(chain))
-    if not (maps.table_field(probe) or maps.table_field(ifp) or (i_["k"] == "Path" and i_["path"].get("hid") in LETS)):
+    # the initialiser may itself start at another alias (`let t = &self.format.task; let (l, r) = &t.budget_brackets;`) or at a parameter /
+    # `self` whose field is meant (`let Task { sentence: s, .. } = self;`): accepted when the chain ends in a table field, in another alias,
+    # or in a field of `self` / a parameter
+    root = i_
+    while root["k"] == "Field" or root["k"] == "AddrOf" or (root["k"] == "Unary" and root.get("op") in ("*", "Deref")):
+        root = strip(root["e"])
+    root_alias = root["k"] == "Path" and root["path"].get("res") == "local" and root["path"].get("hid") in LETS
+    root_param = root["k"] == "Path" and root["path"].get("res") == "local" and (root["path"].get("name") in PARAMS or root["path"].get("name") == "self") \
+        and root["path"].get("name") not in STATE_NAMES - {"self"} and not (root["path"].get("name") == "self" and "mut" in str(root.get("ty", "")))
+    if not (maps.table_field(probe) or maps.table_field(ifp) or root_alias or (root_param and len(ifp) > 1)):
         return None
     out = i_
     for c in reversed(chain):
@@ -173,6 +182,19 @@ class Skel:
         """sort key of a match arm whose pattern is a plain (or-)variant pattern without guard, else None"""
         if guard:
             return None
+        q = pat
+        while q.get("k") in ("Ref", "Box", "Deref"):
+            q = q["pat"]
+        if q.get("k") == "Tuple":
+            # tuple pattern: per position the variant set, "_" for anything; `..` is kept as a marker and padded in match_ops
+            elems = []
+            for sub in q.get("pats", []):
+                try:
+                    v = hir.pat_variants(sub)
+                except hir.Unrecognised:
+                    return None
+                elems.append("_" if v is None else tuple(sorted(str(x) for x in v)))
+            return ("T", tuple(elems), q.get("ddpos"))
         try:
             v = hir.pat_variants(pat)
         except hir.Unrecognised:
@@ -181,13 +203,40 @@ class Skel:
             return None
         return tuple(sorted(str(x) for x in v))
 
+    @staticmethod
+    def _disjoint(k1, k2):
+        t1, t2 = (k1 and k1[0] == "T"), (k2 and k2[0] == "T")
+        if t1 != t2:
+            return False
+        if not t1:
+            return not (set(k1) & set(k2))
+        return len(k1[1]) == len(k2[1]) and any(a != "_" and b != "_" and not (set(a) & set(b)) for a, b in zip(k1[1], k2[1]))
+
     def match_ops(self, sc, arms):
-        """arms: [(key or None, ops)].  Arms with disjoint variant patterns are order-free: they are sorted by variant name (a trailing
-        wildcard / binding arm stays last); any other match keeps its source order."""
+        """arms: [(key or None, ops)].  Arms whose patterns are pairwise DISJOINT (plain variant patterns, or tuple patterns that differ in the
+        variants of some position) are order-free: they are sorted (a trailing wildcard / binding arm stays last); any other match keeps
+        its source order."""
+        # pad `..` of tuple patterns to the longest arity
+        n = max([len(k[1]) for k, o in arms if k and k[0] == "T"] or [0])
+        padded = []
+        for k, o in arms:
+            if k and k[0] == "T":
+                el, dd = list(k[1]), k[2]
+                if dd is not None and len(el) < n:
+                    el = el[:dd] + ["_"] * (n - len(el)) + el[dd:]
+                k = ("T", tuple(el))
+            padded.append((k, o))
+        arms = padded
         keys = [k for k, o in arms]
-        head = arms[:-1] if (keys and keys[-1] is None) else arms
-        if head and all(k is not None for k, o in head) and len(set(k for k, o in head)) == len(head):
-            arms = sorted(head, key=lambda ko: ko[0]) + arms[len(head):]
+        head = arms[:-1] if (keys and (keys[-1] is None or (keys[-1][0] == "T" and all(x == "_" for x in keys[-1][1])))) else arms
+        if head and all(k is not None for k, o in head) and all(self._disjoint(a[0], b[0]) for i, a in enumerate(head) for b in head[i + 1:]):
+            arms = sorted(head, key=lambda ko: repr(ko[0])) + arms[len(head):]
+        elif len(arms) > 2 and all(k is not None for k, o in arms):
+            # an arm that is disjoint from EVERY other arm can stand anywhere: such arms go first (sorted), the first-match order of the
+            # overlapping rest is kept
+            free = [i for i, a in enumerate(arms) if all(self._disjoint(a[0], b[0]) for j, b in enumerate(arms) if j != i)]
+            if free:
+                arms = sorted([arms[i] for i in free], key=lambda ko: repr(ko[0])) + [a for i, a in enumerate(arms) if i not in free]
         arms = [self.norm(o) for k, o in arms]
         if not any(arms):
             return sc
